@@ -42,7 +42,7 @@ FIRST_CONTACT = {   # seeds the checks missed when first run against them, and w
     "C10-8": "missed -> clause 'drift of an EXISTING simulation process follows a rate update' (Process.process_drift real body)",
     "C12-8": "missed -> Clayton groundedness / margins with parameters reassigned after construction (C11 lemma shared with C12)",
     "C13-8": "missed (memoising decorators were dropped by the extraction) -> decorators now modelled; bounded history 'second grid after a parameter update'",
-    "C15-8": "missed -> lemma: two paths one after the other on the same coupled fixed-dates simulator share nothing",
+    "C15-8": "missed at first -> lemma: two paths one after the other on the same coupled fixed-dates simulator share nothing (caught then); since the running-sum repair of the coupled simulators every date is rewritten on every path, the shared buffers are harmless and the seed's own demonstration passes on the patched current tree: recorded as no-longer-a-violation, not as caught",
     "C17-9": "missed -> lemma: Product.update follows the latest set-up (shared underlying, underlying replaced)",
     "C17-10": "missed (class not under contract) -> DefaultTimeNthUnderlying in both representations",
     "C18-7": "missed -> battery history: expiry priced, truncation parameter reassigned, same expiry priced again",
@@ -56,6 +56,18 @@ FIRST_CONTACT = {   # seeds the checks missed when first run against them, and w
     "C11-7": "missed -> Clayton lemmas re-run after ANOTHER copula object was evaluated (class-level memo keyed by dimension)",
     "C11-8": "missed -> Clayton lemmas re-run after the SAME object was evaluated in the other dimension (first-use memo)",
     "C16-7": "undecided (model built without its constructor) -> rate models built by their real constructors; route 'initial rates reassigned'",
+    "C12-2": "re-examined in wave 6: its earlier 'caught' came from an exception inside a clause that was itself out of the property's domain (A.7 item 19) -> lemma 'tail integrals after a truncation are history-free' (real constructor, real truncation)",
+    "C09-10": "missed by C09 (caught by C01's truncate-twice mass lemma) -> that unit now also runs under C09",
+    "C10-9": "missed -> clause: the deterministic PATH of an existing simulation process follows a rate update (Process.deterministic_path real body, not only process_drift)",
+    "C10-10": "undecided (a branch of the code split a regime of the analytic back end) -> the analytic route forks into the two sub-regimes and probes the obligations at a point of each (z3 model of the regime's facts and the branch condition)",
+    "C15-9": "missed -> running-sum lemma re-run after ANOTHER chain on another grid met the same increments (class-level memo keyed by the increment)",
+    "C15-10": "undecided (numpy.isclose unmodelled) -> isclose / allclose models; the step-cap lemma states 'every original point is kept' also when points are dropped",
+    "C17-12": "missed by C17 (and C07) -> control-underlying lemma: same class, terms differing in a PRIVATE attribute (DefaultTime levels); the unit also runs under C17",
+    "C18-9": "missed -> battery history: ONE FFT pricer across spot / dividend / rate updates of its model (also exposed the stale-rate defect, fix 709587e)",
+    "C18-10": "missed -> contract on COSPricer.butterfly (call combination for ANY three strikes; put tied to call by the proved parity)",
+    "C19-9": "undecided (dict membership with a symbolic key) -> dicts with symbolic keys modelled (same-term policy, as for the memoising decorators)",
+    "C08-9": "undecided (numpy.random.seed inside a task) -> ledger of re-seeds inside tasks over two passes and two levels: the seeds of all tasks of a run are pairwise distinct; native multilevel pool replay",
+    "C08-10": "missed by C08 (C15's fixed-date pre-computation lemma, restated at the level of the Poisson generator, catches it) -> that unit now also runs under C08",
 }
 
 
